@@ -21,14 +21,20 @@ namespace {
       build_all(c);
       std::set<int> leaves_seen;
       std::set<std::string> classes_seen;
-      for (std::size_t idx = 0; idx < c.entries.size(); ++idx) {
+      // every node is examined as built; classic expressions a second time with their `implementation()` link set to a
+      // declaration (dispatch must not depend on it)
+      std::vector<std::pair<std::size_t, int>> work;
+      for (std::size_t idx = 0; idx < c.entries.size(); ++idx) work.push_back({ idx, 0 });
+      for (std::size_t idx = 0; idx < c.entries.size(); ++idx) if (c.entries[idx].set_implementation) work.push_back({ idx, 1 });
+      for (auto [idx, with_impl] : work) {
          const Entry& e = c.entries[idx];
          if (e.node == nullptr) continue;
+         if (with_impl) { e.set_implementation(c.dc[(idx) % 2 ? 0 : 2]); rep.count("classic_nodes_with_implementation_set"); }
          rep.count("states");
          const ipr::Node& n = *e.node;
          const std::string expected = leaf_name[e.leaf];
          auto fail = [&](const std::string& key, const std::string& what) {
-            rep.violation("C06:" + key, (long long) idx, what + " [node built by " + e.row + ", documented interface " + expected + "]",
+            rep.violation("C06:" + key, (long long) idx, what + " [node built by " + e.row + ", documented interface " + expected + (with_impl ? ", implementation() set to a declaration" : "") + "]",
                           vf::JObj{}.str("pass", "C06").raw("ops", vf::jarr(std::vector<long long>{ (long long) idx })).str("row", e.row).done());
             if (verbose) std::printf("  VIOLATION C06:%s: %s [%s]\n", key.c_str(), what.c_str(), e.row.c_str());
          };
